@@ -577,7 +577,19 @@ def leg_cookie(chk: Check, fl: Flow, other: Flow, rng: random.Random, exhaustive
                 chk.extra["callback_5xx"] = chk.extra.get("callback_5xx", 0) + 1
                 chk.hit("cookie:mutant_5xx_not_completed")
             if ev:
-                chk.violation(f"callback_completed_with_bad_cookie:{label.split('@')[0]}", "the callback completed although the cookie was tampered / expired / foreign or the state did not match", wit)
+                base = label.split("@")[0]
+                cat = (
+                    "expired"
+                    if base.startswith("age_")
+                    else "state_mismatch"
+                    if base.startswith("state_")
+                    else "foreign_key"
+                    if base.startswith("foreign_key")
+                    else "missing"
+                    if base in ("cookie_missing", "cookie_empty")
+                    else "tampered"
+                )
+                chk.violation(f"callback_completed_with_bad_cookie:{cat}", "the callback completed although the cookie was tampered / expired / foreign or the state did not match", wit)
 
         # controls first (each consumes nothing server-side: the cookie is stateless)
         attempt("control", cookie, state, True)
@@ -763,4 +775,61 @@ def main(tier: str, seed: int) -> int:
         chk.merge(res)
     chk.exhaustive["session_cookie_single_bit_flip_per_byte_position"] = True
     chk.exhaustive["url_grammar"] = False
+    return chk.finish()
+
+
+def replay(path: str) -> int:
+    """Re-run the single case of a replay file's first witness (validator call, login, shortcut, or the cookie leg)."""
+    with open(path) as fh:
+        rp = json.load(fh)
+    wit = rp["witnesses"][0]
+    chk = Check(PID, rp["tier"], rp["seed"], level=CATEGORY, rule=RULE)
+    leg = wit.get("leg", "cookie" if "mutation" in wit else "")
+    if leg.startswith("validate_"):
+        from vgi_rpc.http import _oauth_pkce as m
+
+        if leg == "validate_return_to":
+            ret = m._validate_return_to(wit["input"], frozenset(wit["allow"]))
+            if ret:
+                loc = ret + ("#" if "#" not in ret else "&") + "token=" + ACCESS
+                _record_location(chk, leg, loc, "https://svc.example/", tuple(wit["allow"]), "", "replay", wit, True)
+        else:
+            ret = m._validate_original_url(wit["input"], wit["prefix"])
+            _record_location(chk, leg, ret, f"https://svc.example{wit['prefix']}/_oauth/callback?code=x", (), wit["prefix"], "replay", wit, False)
+    else:
+        from vgi_rpc.http import _oauth_pkce
+
+        clock = _Clock()
+        real_time = _oauth_pkce.time
+        _oauth_pkce.time = types.SimpleNamespace(time=clock.time)  # type: ignore[assignment]
+        idp = FakeIdp()
+        try:
+            cfg = wit["config"]
+            fl = Flow(idp, cfg, clock)
+            if leg == "shortcut":
+                r = fl.get(wit["path"], "_vgi_return_to=" + quote(wit["return_to"], safe=""), {"_vgi_auth": ACCESS})
+                if r.status == 302:
+                    _record_location(chk, leg, r.header("location") or "", f"{fl.scheme}://{SVC_HOST}/", fl.allow, fl.prefix, "replay", wit, True)
+            elif leg.startswith("login"):
+                r1 = fl.get(wit["path"], wit["query"])
+                sc = fl.set_cookies(r1).get("_vgi_oauth_session")
+                q = parse_qs(urlsplit(r1.header("location") or "").query)
+                if r1.status == 302 and sc and "state" in q:
+                    cbq = f"code=authcode-1&state={quote(q['state'][0], safe='')}"
+                    r2 = fl.get(fl.prefix + "/_oauth/callback", cbq, {"_vgi_oauth_session": sc["value"]})
+                    if r2.status == 302:
+                        _record_location(chk, leg, r2.header("location") or "", f"{fl.scheme}://{SVC_HOST}{fl.prefix}/_oauth/callback?{cbq}", fl.allow, fl.prefix, "replay", wit, True)
+            elif leg == "logout":
+                leg_logout(chk, fl)
+            else:
+                leg_cookie(chk, fl, Flow(idp, {**cfg, "key": "ee" * 32}, clock), random.Random(rp["seed"]), exhaustive_bits=True)
+        finally:
+            idp.close()
+            _oauth_pkce.time = real_time
+    if rp["key"] not in chk.violations:
+        chk.violations.clear()
+        chk.inconclusive_because(f"replay did not reproduce {rp['key']}")
+    else:
+        for k in [k for k in chk.violations if k != rp["key"]]:
+            del chk.violations[k]
     return chk.finish()
